@@ -34,7 +34,7 @@ type HubCase struct {
 	FinalV    [2]uint64 `json:"finalv"` // final balances of the virtual channel (same sum)
 }
 
-var hubMuts = []string{"none", "none", "hub-pays-extra", "hub-pays-other-share", "peer-pays-less", "amount+1", "other-locked-added", "imap-swapped"}
+var hubMuts = []string{"none", "none", "hub-pays-extra", "hub-pays-other-share", "peer-pays-less", "amount+1", "other-locked-added", "imap-swapped", "imap-swapped-consistent", "imap-swapped-consistent"}
 var hubSettleMuts = []string{"none", "none", "hub-gets-less", "peer-gets-all", "keep-suballoc", "other-final", "other-final"}
 
 func drawHubCase(t *rapid.T) HubCase {
@@ -224,6 +224,18 @@ func runHubCase(c HubCase) *h.Outcome {
 		case "imap-swapped":
 			imap[0], imap[1] = imap[1], imap[0]
 			sa.IndexMap = imap
+		case "imap-swapped-consistent":
+			// a proposal that is consistent in itself - index map swapped AND the
+			// debits made according to the swapped map: the hub would front the
+			// endpoint's own share here, and the same participant again in the
+			// other ledger channel
+			if own.Cmp(other) == 0 {
+				ok = false
+			}
+			imap[0], imap[1] = imap[1], imap[0]
+			sa.IndexMap = imap
+			s.Balances[0][mI] = new(big.Int).Sub(cur.Balances[0][mI], other)
+			s.Balances[0][hI] = new(big.Int).Sub(cur.Balances[0][hI], own)
 		}
 		for _, b := range s.Balances[0] {
 			if b.Sign() < 0 {
@@ -259,6 +271,7 @@ func runHubCase(c HubCase) *h.Outcome {
 	finals := [][2]uint64{c.FinalV} // final states of the virtual channel the adversary's two keys have signed
 	judgeAll := func() *h.Failure {
 		settledWith := [2]map[int]bool{}
+		fundedWith := [2]map[int]bool{} // virtual participants the hub fronts in ledger channel i
 		for i := 0; i < 2; i++ {
 			id := hch[i].ID()
 			hI, mI := hch[i].Idx(), mch[i].Idx()
@@ -304,6 +317,13 @@ func runHubCase(c HubCase) *h.Outcome {
 					if x.Bals[0].Cmp(sum) != 0 || sum.Cmp(vtotal) != 0 {
 						return h.Failf("hub-countersigned-unsafe:"+kind, "the funding sub-allocation does not lock the virtual channel's total")
 					}
+					fronted := map[int]bool{}
+					for v, p := range x.IndexMap {
+						if p == hI {
+							fronted[v] = true
+						}
+					}
+					fundedWith[i] = fronted
 				case len(removed) == 1 && len(added) == 0:
 					// the settled channel has ONE final state: the update must credit the
 					// remapped balances of a final state the channel's participants signed,
@@ -336,6 +356,15 @@ func runHubCase(c HubCase) *h.Outcome {
 					settledWith[i] = match
 				default:
 					return h.Failf("hub-countersigned-unsafe:"+kind, "the hub signed an update that adds/removes several sub-allocations")
+				}
+			}
+		}
+		if fundedWith[0] != nil && fundedWith[1] != nil {
+			// in each of its two ledger channels the hub stands in for the participant
+			// at the far end: every participant of the funded channel exactly once
+			for v := 0; v < 2; v++ {
+				if fundedWith[0][v] == fundedWith[1][v] {
+					return h.Failf("hub-countersigned-unsafe:vcfund:hub-fronts-participant-twice-or-never", "the hub signed the funding of one virtual channel on its two ledger channels with index maps under which it stands in for participant %d in %s of them: its balance changes are not the balances of the far-end participants", v, map[bool]string{true: "both", false: "neither"}[fundedWith[0][v]])
 				}
 			}
 		}
